@@ -681,28 +681,6 @@ class Walker:
                 self._walk(t["t"], st)
                 return True
             return self._apply(st, F, payload, t, wrap)
-        if short == "map_err" and not is_opt and len(args) == 2 and isinstance(strip_refs(args[1]), tuple) and strip_refs(args[1])[0] == "fnref":
-            # `x.map_err(helper)` with a local helper *outside the reference vocabulary* (an error map that was extracted into a private fn):
-            # the same two arms as `match x { Ok(v) => Ok(v), Err(e) => Err(helper(e)) }`.  (Closures and vocabulary functions keep the
-            # opaque form that `?` looks through — the reference tables are written against it.)
-            F = strip_refs(args[1])
-            g = self._inline_target({}, did=F[1])
-            if g is None or g.body["argc"] != 1:
-                return False
-            dty = ""
-            try:
-                dty = self.fn.body["locals"][t["dest"]["l"]]["ty"]
-            except Exception:
-                pass
-            okv = ("agg", "tuple", "", "", 0, ()) if re.match(r"^(std|core)::result::Result<\(\), ", dty or "") else ("ok", x)
-            s2 = self._fork(st)
-            if self._assume(s2, simp_atom(("is", x, "Ok"))):
-                self.assign(s2, t["dest"], ("agg", "adt", "std::result::Result", "Ok", 0, (okv,)))
-                self._walk(t["t"], s2)
-            s2 = self._fork(st)
-            if self._assume(s2, simp_atom(("is", x, "Err"))):
-                self._inline(s2, g, {1: ("err", x)}, t, ("wrap", "std::result::Result", "Err", 1))
-            return True
         if short == "transpose" and is_opt and len(args) == 1 and isinstance(x, tuple) and x[0] == "agg" and x[1] == "adt":
             if x[3] == "None":
                 v = ("agg", "adt", "std::result::Result", "Ok", 0, (x,))
